@@ -6,6 +6,8 @@ import PqlModel.Props.C02EndToEndSource
 import PqlModel.Props.C06Params
 import PqlModel.Props.C06ParamsAtomic
 import PqlModel.Props.C06ParamsExamples
+import PqlModel.Props.C06Placeholders
+import PqlModel.Props.C02ProgramNames
 #print axioms Pql.C06.C06_shadow
 #print axioms Pql.C06.C06_other_binding_irrelevant
 #print axioms Pql.C06.C06_after_ignored
@@ -55,3 +57,10 @@ import PqlModel.Props.C06ParamsExamples
 #print axioms Pql.Params.C06_operand_is_unit_params
 #print axioms Pql.Params.C06_param_value_is_operand
 #print axioms Pql.Params.C06_params_lets_same_skeleton
+#print axioms Pql.E2EMore.C06_parse_commutes_with_instantiation
+#print axioms Pql.E2EMore.lex_placeholder
+#print axioms Pql.E2EMore.C06_placeholders_lex
+#print axioms Pql.E2EMore.C06_placeholder_read_commutes
+#print axioms Pql.E2EMore.C06_placeholder_params_end_to_end
+#print axioms Pql.E2EMore.C06_placeholder_params_end_to_end_names
+#print axioms Pql.E2EMore.C06_placeholder_params_run
